@@ -28,6 +28,9 @@ CASES = [  # (defect id, property, commit, demo, rules expected)
     ("D23", "C16", "ed93a17", "d23_badi_week_year_zero.py", ["R16.9"]),
     ("D24", "C13", "4f8912b", "d24_day_names_publication.py", ["R13.14"]),
     ("D25", "C13", "b0e3e5c", "d25_composite_pattern_aliasing.py", ["R13.15"]),
+    ("D26", "C09", "b732f30", "d26_hebrew_numbering_plain_int.py", ["R09.identity"]),
+    ("D27", "C09", "5657263", "d27_badi_plus_months.py", ["R09.15"]),
+    ("D28", "C09", "6301fcb", "d28_plus_months_exception_type.py", ["R09.16"]),
 ]
 demos = os.path.join(HERE, "demos")
 for did, prop, commit, demo, rules in CASES:
